@@ -12,6 +12,7 @@ WGS-84 geodesic length (pyproj called with explicit keywords).
 from __future__ import annotations
 
 import math
+import random
 
 import numpy as np
 from pyproj import Geod
@@ -180,6 +181,22 @@ def gen_path(rng, kind, lat_g, lon_g):
         la2 = lats[-1] + rng.uniform(-s, s) * 2
         d = rng.uniform(0.02, 1.0) * s + 1e-3
         lo2 = (-PI + d) if east else (PI - d)
+        special = rng.random()
+        if special < 0.15:
+            # end points mirrored about the equator and the 180th meridian: the path meets
+            # the antimeridian at latitude exactly 0
+            x_ = abs(lats[-1]) if abs(lats[-1]) > 1e-3 else 0.05
+            y_ = PI - abs(lons[-1])
+            lats[-1] = -x_ if rng.random() < 0.5 else x_
+            la2 = -lats[-1]
+            lo2 = (-PI + y_) if east else (PI - y_)
+        elif special < 0.3:
+            # the last point before the crossing lies exactly ON the 180th meridian (and may
+            # be repeated: a stop there)
+            lons[-1] = PI if east else -PI
+            for _ in range(rng.randint(0, 2)):
+                lats.append(lats[-1])
+                lons.append(lons[-1])
         lats.append(la2)
         lons.append(lo2)
         for _ in range(post):
@@ -279,9 +296,26 @@ def sample_segment(lat1, lon1, lat2, lon2, lat_g, lon_g, M):
     return order, shares, curve, seg
 
 
-def run_gridder(Gridder, lat_g, lon_g, alt_g, tim_g, lats, lons, alts, times, state, integ):
-    g = Gridder(grid_latitudes=lat_g, grid_longitudes=lon_g, grid_altitudes=alt_g,
-                grid_times=tim_g)
+def run_gridder(Gridder, lat_g, lon_g, alt_g, tim_g, lats, lons, alts, times, state, integ,
+                reuse_rng=None):
+    if reuse_rng is None:
+        g = Gridder(grid_latitudes=lat_g, grid_longitudes=lon_g, grid_altitudes=alt_g,
+                    grid_times=tim_g)
+    else:
+        # one Gridder object switched to another grid: built for (and used on) a different
+        # grid first, then its grid fields are assigned
+        d_lat, d_lon, d_alt, d_tim, _ = gen_grid(reuse_rng)
+        g = Gridder(grid_latitudes=d_lat, grid_longitudes=d_lon, grid_altitudes=d_alt,
+                    grid_times=d_tim)
+        try:
+            g.grid_trajectory(np.deg2rad(np.array([10.0, 12.5])), np.deg2rad(np.array([20.0, 23.0])),
+                              None if d_alt is None else np.array([1000.0, 2000.0]),
+                              None if d_tim is None else np.array([10.0, 20.0]),
+                              (np.arange(2.0),), (np.array([1.0]),))
+        except Exception:  # noqa: BLE001  (the decoy run is not what is being judged)
+            pass
+        g.grid_latitudes, g.grid_longitudes = lat_g, lon_g
+        g.grid_altitudes, g.grid_times = alt_g, tim_g
     seg_idx = np.arange(len(lats), dtype=float)
     out = g.grid_trajectory(lats, lons, alts, times, (seg_idx,) + tuple(state), tuple(integ))
     return out
@@ -338,9 +372,12 @@ def make_case(rng, k, M):
     c.len_ok = True
     c.input_mutated, c.regrid_differs = [], False
     before = [np.array(x, copy=True) for x in [c.lats, c.lons] + c.state + c.integ]
+    c.reused_gridder = rng.random() < 0.2
     try:
         c.out = run_gridder(grid_mod.Gridder, c.lat_g, c.lon_g, c.alt_g, c.tim_g, c.lats,
-                            c.lons, c.alts, c.times, c.state, c.integ)
+                            c.lons, c.alts, c.times, c.state, c.integ,
+                            reuse_rng=random.Random(rng.getrandbits(32)) if c.reused_gridder
+                            else None)
     except Exception as e:  # noqa: BLE001
         c.error = f'{type(e).__name__}: {str(e)[:200]}'
         return c
